@@ -136,7 +136,7 @@ func (cf c07Config) genValue(c *core.Ctx, r *core.Rand, maxLen int) string {
 	for _, d := range append(cf.delims(), cf.rel) {
 		specials = append(specials, []rune(d)...)
 	}
-	base := []rune("abcXYZ0189 .-_éß中😀")
+	base := []rune("abcXYZ0189 .-_éß中😀\ufffd") // U+FFFD is a character like any other
 	var sb strings.Builder
 	onlySpecial := r.Chance(1, 10)
 	for i := 0; i < n; i++ {
